@@ -215,7 +215,11 @@ pub trait ChainStore: Send + Sync + Sized {
             ret
         };
 
-        if let Some(cache) = self.cache() {
+        // an empty answer means the block is not stored (yet): caching it would outlive the
+        // block's arrival
+        if let Some(cache) = self.cache()
+            && !ret.is_empty()
+        {
             cache.block_tx_hashes.lock().put(hash.clone(), ret.clone());
         }
 
@@ -298,7 +302,11 @@ pub trait ChainStore: Send + Sync + Sized {
                     .and_then(|block| block.extension())
             });
 
-        if let Some(cache) = self.cache() {
+        // `None` is only worth remembering for a stored block without extension; for an unknown
+        // hash it would outlive the block's arrival
+        if let Some(cache) = self.cache()
+            && (ret.is_some() || self.get(COLUMN_BLOCK_HEADER, hash.as_slice()).is_some())
+        {
             cache.block_extensions.lock().put(hash.clone(), ret.clone());
         }
         ret
